@@ -32,6 +32,8 @@ import (
 	"math/big"
 	"math/rand"
 	"net"
+	"net/http"
+	"net/http/httptest"
 	"os"
 	"os/exec"
 	"path/filepath"
@@ -2181,6 +2183,11 @@ type vC18Step struct {
 	Qtype    uint16   `json:"qtype,omitempty"`
 	Wire     bool     `json:"wire,omitempty"`
 	Download string   `json:"download,omitempty"`
+	// how the list reaches the directory: "" = the file lies there already; "http" = the real
+	// download (fetchBlocklist / downloadBlocklist) from a local server; "http-500" = the
+	// server answers 500 with the list as body; "http-cut" = the server announces the full
+	// length and hangs up in the middle of a line. A failed download must add nothing.
+	Via string `json:"via,omitempty"`
 }
 
 type vC18CrashSpec struct {
@@ -2300,23 +2307,61 @@ func vC18RunScript(sc *vC18Script, dir, refDir string, kprefix string) (recs []v
 			desc = append(desc, "saveMu released, queued calls returned")
 		case "refresh":
 			dl := []string{}
-			if st.Download != "" {
+			var srv *httptest.Server
+			switch {
+			case st.Via != "":
+				body, via := st.Download, st.Via
+				srv = httptest.NewServer(http.HandlerFunc(func(rw http.ResponseWriter, _ *http.Request) {
+					switch via {
+					case "http-500":
+						rw.WriteHeader(http.StatusInternalServerError)
+						_, _ = rw.Write([]byte(body))
+					case "http-cut":
+						rw.Header().Set("Content-Length", strconv.Itoa(len(body)))
+						cut := len(body) - 3
+						if cut < 0 {
+							cut = 0
+						}
+						_, _ = rw.Write([]byte(body[:cut])) // returning short of Content-Length makes the server hang up
+					default:
+						_, _ = rw.Write([]byte(body))
+					}
+				}))
+				b.cfg.BlockLists = []string{srv.URL + "/list.txt"}
+				ref.cfg.BlockLists = []string{srv.URL + "/list.txt"}
+				if via == "http" && st.Download != "" {
+					dl = []string{st.Download}
+				}
+			case st.Download != "":
 				if err := os.WriteFile(filepath.Join(dir, "remote.example-0a1b2c.1.tmp"), []byte(st.Download), 0o644); err != nil {
 					return nil, err.Error()
 				}
 				_ = os.WriteFile(filepath.Join(refDir, "remote.example-0a1b2c.1.tmp"), []byte(st.Download), 0o644)
 				dl = []string{st.Download}
 			}
+			beforeRefresh := sig(b)
 			refDone := make(chan struct{})
 			go func() { ref.refreshRemote(); close(refDone) }()
 			b.refreshRemote()
 			<-refDone
+			if len(dl) == 0 && sig(b) != beforeRefresh {
+				// nothing was downloaded completely: a 500 body or a list cut short (its last line
+				// possibly a shorter, broader name) must not reach the list
+				goFail = fmt.Sprintf("a refresh whose download failed (%q) changed the list: before %s, after %s", st.Via, beforeRefresh, sig(b))
+			}
+			if srv != nil {
+				srv.Close()
+				b.cfg.BlockLists, ref.cfg.BlockLists = nil, nil
+			}
 			refreshed = true
-			if st.Download != "" {
+			if len(dl) > 0 {
 				dirty = true
 			}
+			if left, _ := filepath.Glob(filepath.Join(dir, "*.tmp")); len(left) > 0 {
+				goFail = fmt.Sprintf("download file(s) %q left in the directory after the refresh", left)
+			}
 			parts = append(parts, fmt.Sprintf("RHRefresh %s", vC18List(dl)))
-			desc = append(desc, []any{"refreshRemote", "downloaded", st.Download})
+			desc = append(desc, []any{"refreshRemote", "list", st.Download, "via", st.Via, "parsed", len(dl) > 0})
 		case "exists":
 			m, wild, _ := vC18Dump(b)
 			got := b.Exists(st.Q)
@@ -2466,7 +2511,7 @@ func vC18RandRefreshScripts(r *rand.Rand, count int) []*vC18Script {
 				for k := 0; k < r.Intn(3); k++ { // names the API also handles
 					sb.WriteString(vC18Spell(r, pool[r.Intn(len(pool))]) + "\n")
 				}
-				sc.Steps = append(sc.Steps, vC18Step{Do: "refresh", Download: sb.String()})
+				sc.Steps = append(sc.Steps, vC18Step{Do: "refresh", Download: sb.String(), Via: []string{"", "http", "http", "http-500", "http-cut"}[r.Intn(5)]})
 				nref++
 				continue
 			}
